@@ -92,11 +92,11 @@ End Win.
 (* ================================================================ the Windows emitter
    Everything about ReadDirectoryChangesW ([win_kernel]) is modelled from the documentation and
    cannot be validated in this sandbox. *)
-Require WD.Base.BStr WD.Model.SubEvents WD.Model.PlatFs WD.Model.WinEmitter WD.Proofs.WinEmitterProofs.
+Require WD.Base.BStr WD.Model.SubEvents WD.Model.PlatFs WD.Model.WinEmitter WD.Proofs.WinEmitterProofs WD.Proofs.WinReplayProofs.
 Require Import Coq.Sorting.Permutation.
 
 Module WinEmit.
-Import WD.Base.BStr WD.Model.SubEvents WD.Model.PlatFs WD.Model.WinEmitter WD.Proofs.WinEmitterProofs.
+Import WD.Base.BStr WD.Model.SubEvents WD.Model.PlatFs WD.Model.WinEmitter WD.Proofs.WinEmitterProofs WD.Proofs.WinReplayProofs.
 
 (* Contract.  For every tree, every operation of the alphabet that succeeds in it (names valid, any
    depth), recursive or not: feeding the notifications the simulator renders for that one operation to
@@ -144,7 +144,11 @@ Proof. exact win_contract_cut_ok. Qed.
 Print Assumptions C20_win_contract_cut.
 
 (* Replay, full statement: one operation per batch, the walked tree [sub] lists what lies below the
-   target; replaying the contract on the view of the tree before gives the view after (as a set). *)
+   target (as a set: os.walk order versus the tree's own order); replaying the contract on the view
+   of the tree before gives the view after.  Holds for every operation of the alphabet, directories
+   with content included: the chain of exact re-keys (the moved event and one synthetic moved event
+   per descendant) equals the prefix rename because no destination d/r is a source s/r' (s and d are
+   incomparable: d is not below s, and s is not below the fresh name d). *)
 Definition C20_win_replay_full : Prop :=
   forall (sub : path -> tree) (before : fs) (o : op),
   wf_fs before -> op_names_ok o = true -> op_ok before o = true ->
@@ -152,7 +156,35 @@ Definition C20_win_replay_full : Prop :=
   Permutation (map (fun x => (snd x, fst x)) (desc [] (sub (target o)))) (below after (target o)) ->
   Permutation (replay (view_of before) (win_contract sub true after o)) (view_of after).
 
-(* Proved part: histories of any length, one operation per batch, in which every renamed entry is a
+Theorem C20_win_replay : C20_win_replay_full.
+Proof. exact win_replay_full_wf. Qed.
+Print Assumptions C20_win_replay.
+
+(* Histories of any length, one operation per batch ([subs] = what os.walk listed at each step, each
+   covering the target of its operation), from any well-formed tree: replaying the whole stream
+   reproduces the final tree. *)
+Theorem C20_win_replay_history :
+  forall (ops : list op) (subs : list (path -> tree)) (f : fs),
+  wf_fs f -> history_ok subs f ops ->
+  Permutation (replay (view_of f) (win_history subs f ops)) (view_of (fold_left apply_op ops f)).
+Proof. exact win_replay_history_wf. Qed.
+Print Assumptions C20_win_replay_history.
+
+(* The same at the level of the emitter (recursive watch): over a whole history, one operation at a
+   time, each operation's notifications cut into reads in ANY way and the oracles of each moment
+   answering for the tree after that operation, what WindowsApiEmitter.queue_events queues in total
+   (pending old name carried across calls) is exactly the stream of rendered contracts, and replaying
+   it reproduces the final tree. *)
+Theorem C20_win_history :
+  forall root ops steps f last,
+  root <> [] -> last_is_sep root = false -> wf_fs f -> win_steps_ok root steps f ops ->
+  let subs := map (fun st => w_sub (fst st)) steps in
+  fst (win_run true root steps last) = map (render root) (win_history subs f ops) /\
+  Permutation (replay (view_of f) (win_history subs f ops)) (view_of (fold_left apply_op ops f)).
+Proof. exact win_emitter_history. Qed.
+Print Assumptions C20_win_history.
+
+(* Earlier, weaker form (kept): histories of any length, one operation per batch, in which every renamed entry is a
    leaf (a file or an empty directory) and every arriving directory is empty (so the walked tree has
    no descendants): replaying the contract stream reproduces the tree exactly.  Renames and arrivals of
    directories *with content* are covered by C20_win_contract + C14 (one synthetic event per
@@ -203,10 +235,11 @@ End WinEmit.
 (* ================================================================ the FSEvents emitter
    Everything about FSEvents ([fsevents_kernel], coalescing) is modelled from the documentation and the
    comments in fsevents.py; it cannot be validated in this sandbox. *)
-Require WD.Model.FsEvents WD.Proofs.FsEventsProofs.
+Require WD.Model.FsEvents WD.Proofs.FsEventsProofs WD.Proofs.FsContractProofs WD.Proofs.FsReplayProofs WD.Proofs.FsBatchProofs WD.Proofs.FsCutProofs WD.Proofs.PlatFsProofs.
 
 Module Fse.
 Import WD.Base.BStr WD.Model.SubEvents WD.Model.PlatFs WD.Model.FsEvents WD.Proofs.FsEventsProofs.
+Import WD.Proofs.PlatFsProofs WD.Proofs.WinEmitterProofs WD.Proofs.WinReplayProofs WD.Proofs.FsContractProofs WD.Proofs.FsReplayProofs WD.Proofs.FsBatchProofs WD.Proofs.FsCutProofs.
 
 (* Non-recursive watch: whatever the native batch (any flags, any paths, any coalescing, any cut), the
    _fs_view and the state of the file system, every queued event passed _is_recursive_event ... *)
@@ -240,10 +273,13 @@ Theorem C20_fsevents_flat_strict_refuted :
 Proof. exact fsevents_flat_strict_refuted. Qed.
 Print Assumptions C20_fsevents_flat_strict_refuted.
 
-(* Contract and replay for uncoalesced one-operation batches: full statements.  Not proved in Coq in
-   this round (the emitter's per-flag table needs the _fs_view / os.stat invariant "the view contains
-   the inodes of the entries already announced"); checked on every run by the correspondence (model =
-   code on the same batches) and by the oracle (replay of the real events = real tree). *)
+(* Contract for one operation per batch without coalescing, any operation of the alphabet, any
+   tree, recursive or not: given oracles that answer for the tree after the operation and a _fs_view
+   that holds only inodes of the current tree, FSEventsEmitter.queue_events queues exactly the
+   contract (created / deleted + parent modified; rename inside = one moved event with both paths +
+   both parents modified + one synthetic moved event per descendant; move in = created + parent
+   modified + synthetic created per descendant; move out = deleted + parent modified), after the
+   non-recursive filter, and does not request a stop. *)
 Definition C20_fsevents_contract_full : Prop :=
   forall stat_ino walk sub recursive root view before o,
   root <> [] -> last_is_sep root = false ->
@@ -256,12 +292,149 @@ Definition C20_fsevents_contract_full : Prop :=
     queue_events stat_ino walk recursive root view (map (frender root) (fsevents_kernel before o))
     = Some (filter (keep recursive root) (map (render root) (fse_contract sub before after o)), v, false).
 
+Theorem C20_fsevents_contract : C20_fsevents_contract_full.
+Proof. exact fse_contract_full_wf. Qed.
+Print Assumptions C20_fsevents_contract.
+
 Definition C20_fsevents_replay_full : Prop :=
   forall (sub : path -> tree) (before : fs) (o : op),
   wf_fs before -> op_names_ok o = true -> op_ok before o = true ->
   let after := apply_op before o in
-  Permutation (map (fun x => (snd x, fst x)) (desc [] (sub (WinEmitterProofs.target o)))) (below after (WinEmitterProofs.target o)) ->
+  Permutation (map (fun x => (snd x, fst x)) (desc [] (sub (target o)))) (below after (target o)) ->
   Permutation (replay (view_of before) (fse_contract sub before after o)) (view_of after).
+
+Theorem C20_fsevents_replay : C20_fsevents_replay_full.
+Proof. exact fse_replay_full_wf. Qed.
+Print Assumptions C20_fsevents_replay.
+
+(* Histories of any length, one operation per batch, no coalescing, recursive watch, from any
+   well-formed tree and any _fs_view within the inodes seen so far: the events the emitter queues over
+   the whole history (its _fs_view carried from call to call) are exactly the rendered contracts, and
+   replaying them reproduces the final tree.  [fse_history_ok] spells out the hypotheses per step:
+   the operation succeeds, os.stat / os.walk answer for the tree after it, the walked tree covers the
+   operation's target, and a created file or directory gets an inode number never seen before. *)
+Theorem C20_fsevents_history :
+  forall root ops orcs seen view f,
+  root <> [] -> last_is_sep root = false -> wf_fs f ->
+  fse_history_ok root orcs seen f ops -> (forall j, mem j view = true -> In j seen) ->
+  exists v, fse_run true root orcs view f ops = Some (map (render root) (fse_history orcs f ops), v) /\
+            Permutation (replay (view_of f) (fse_history orcs f ops)) (view_of (fold_left apply_op ops f)).
+Proof. exact fse_history_recursive. Qed.
+Print Assumptions C20_fsevents_history.
+
+(* The no-inode-reuse hypothesis of [fse_history_ok] is necessary: mkdir a; touch a/f (inode 9);
+   mv a <outside>; touch g (inode 9 again) - only a's inode left the _fs_view, so g's creation is not
+   queued at all. *)
+Theorem C20_fsevents_inode_reuse_refuted :
+  let r_ : bytes := [47; 114]%N in
+  let a := [[97]]%N in let af := [[97]; [102]]%N in let g := [[103]]%N in
+  let ops := [OMkdir a 5; OCreate af 9; OMoveOut a; OCreate g 9]%N in
+  let st (l : list (path * N)) (p : bytes) :=
+      match find (fun x => beqb (abspath r_ (fst x)) p) l with Some x => Some (snd x) | None => None end in
+  let e := Node [] [] in
+  let orcs := [Oracle (st [(a, 5)]) (fun _ => e) (fun _ => e); Oracle (st [(a, 5); (af, 9)]) (fun _ => e) (fun _ => e);
+               Oracle (st []) (fun _ => e) (fun _ => e); Oracle (st [(g, 9)]) (fun _ => e) (fun _ => e)]%N in
+  exists out v, fse_run true r_ orcs [] [] ops = Some (out, v) /\
+    ~ In (Created KFile (abspath r_ g) false) out /\
+    view_of (fold_left apply_op ops []) = [(g, KFile)].
+Proof. exact fse_inode_reuse_refuted. Qed.
+Print Assumptions C20_fsevents_inode_reuse_refuted.
+
+(* A batch cut inside one operation: only a rename has two events.  Delivered by two calls of
+   queue_events (oracles of the tree after the rename), the look-ahead finds no partner: the first call
+   queues deleted(old) + parent modified, the second created(new) + parent modified + one synthetic
+   created event per descendant - no moved event (the "one moved event" clause of the contract is
+   lost under such a cut) ... *)
+Theorem C20_fsevents_cut_events_partial :
+  forall stat_ino walk sub recursive root view (before : fs) s d,
+  root <> [] -> last_is_sep root = false ->
+  (forall p, walk (abspath root p) = sub p) -> (forall p, wf_tree (sub p) = true) ->
+  closed_fs before -> op_names_ok (ORename s d) = true -> op_ok before (ORename s d) = true ->
+  let after := apply_op before (ORename s d) in
+  (forall p, stat_ino (abspath root p) = match lookup after p with Some e => Some (e_ino e) | None => None end) ->
+  forall e, lookup before s = Some e ->
+  let natives := map (frender root) (fsevents_kernel before (ORename s d)) in
+  exists v1 v2,
+    queue_events stat_ino walk recursive root view (firstn 1 natives)
+    = Some (filter (keep recursive root) (map (render root) (ADeleted (e_kind e) s :: pmod s)), v1, false) /\
+    queue_events stat_ino walk recursive root v1 (skipn 1 natives)
+    = Some (filter (keep recursive root)
+              (map (render root) (ACreated (e_kind e) d false :: pmod d ++
+                                  map (fun x => ACreated (fst x) (d ++ snd x) true) (desc [] (sub d)))), v2, false).
+Proof. exact fse_rename_cut_events. Qed.
+Print Assumptions C20_fsevents_cut_events_partial.
+
+(* ... but the replay law survives the cut: that stream still reproduces the tree. *)
+Theorem C20_fsevents_cut_replay_partial :
+  forall (sub : path -> tree) (before : fs) s d e,
+  wf_fs before -> op_names_ok (ORename s d) = true -> op_ok before (ORename s d) = true ->
+  lookup before s = Some e ->
+  let after := apply_op before (ORename s d) in
+  covers sub after (ORename s d) ->
+  Permutation (replay (view_of before)
+                 ((ADeleted (e_kind e) s :: pmod s) ++
+                  (ACreated (e_kind e) d false :: pmod d ++
+                   map (fun x => ACreated (fst x) (d ++ snd x) true) (desc [] (sub d)))))
+              (view_of after).
+Proof. exact fse_rename_cut_replay. Qed.
+Print Assumptions C20_fsevents_cut_replay_partial.
+
+(* Several operations delivered as ONE batch, arbitrarily many, no coalescing (recursive watch).
+   The law holds exactly under [batch_ok] (FsBatchProofs.v), per operation of the batch:
+     - it succeeds in the tree of its moment, names valid, a created item has a never-seen inode;
+     - [stat_ok]: the path of a one-sided rename (move in / move out) is, when the batch is processed,
+       still there with the item's inode / still gone;
+     - [no_partner]: the item of a one-sided rename is not flagged renamed again later in the batch;
+     - [covers]: os.walk, at processing time, lists below a renamed / arrived directory what was
+       below it right after that operation.
+   Then one call of queue_events on the whole batch queues the concatenated contracts and replaying
+   them reproduces the tree.  The findings F12a-e violate these hypotheses (F12c: no_partner;
+   F12d: stat_ok; F12a/b/e: coalescing, excluded here - see C20_fsevents_coalesce_distinct). *)
+Theorem C20_fsevents_batch_partial :
+  forall stat_ino walk sub root ops seen view f,
+  root <> [] -> last_is_sep root = false ->
+  (forall p, walk (abspath root p) = sub p) -> (forall p, wf_tree (sub p) = true) ->
+  wf_fs f -> batch_ok stat_ino sub root seen f ops -> (forall j, mem j view = true -> In j seen) ->
+  exists v, queue_events stat_ino walk true root view (batch_natives root f ops)
+            = Some (map (render root) (batch_contracts sub f ops), v, false) /\
+            Permutation (replay (view_of f) (batch_contracts sub f ops)) (view_of (fold_left apply_op ops f)).
+Proof. exact fse_batch_recursive. Qed.
+Print Assumptions C20_fsevents_batch_partial.
+
+(* Coalescing merges events of the same item at the same path; a batch in which no two events share
+   (path, inode) is left untouched, so the theorem above applies to it as it stands. *)
+Theorem C20_fsevents_coalesce_distinct : forall l, distinct_items l -> coalesce_all l = l.
+Proof. exact coalesce_distinct. Qed.
+Print Assumptions C20_fsevents_coalesce_distinct.
+
+(* Full law for batches of several operations, coalesced or not, processed when all operations are
+   done (the oracles answer for the final tree: os.stat, os.walk covering every directory): for every
+   executable history delivered as one batch, the queued events render some stream that replays to
+   the final tree.  It is FALSE - proved below - which is the Coq form of the findings F12a-e; the
+   law that does hold is C20_fsevents_batch_partial with its hypotheses [batch_ok]. *)
+Definition C20_fsevents_batched_full : Prop := fsevents_batched_full.
+
+Theorem C20_fsevents_batched_full_refuted : ~ C20_fsevents_batched_full.
+Proof. exact fsevents_batched_full_refuted. Qed.
+Print Assumptions C20_fsevents_batched_full_refuted.
+
+(* Non-vacuity of [batch_ok]: touch a; mv b c delivered as one batch. *)
+Example C20_fsevents_batch_nonvacuous :
+  let f := [Entry [nb] KFile 7%N] in
+  let ops := [OCreate [na] 5%N; ORename [nb] [nc]] in
+  let stat (p : bytes) := if beqb p (abspath r_ [na]) then Some 5%N else if beqb p (abspath r_ [nc]) then Some 7%N else None in
+  let sub (_ : path) := Node [] [] in
+  batch_ok stat sub r_ [7%N] f ops /\
+  queue_events stat (fun _ => Node [] []) true r_ [] (batch_natives r_ f ops)
+  = Some (map (render r_) (batch_contracts sub f ops), [7; 5]%N, false).
+Proof.
+  split; [|vm_compute; reflexivity].
+  cbn [batch_ok]. repeat split; try reflexivity; try exact I.
+  - intros i [<-|[]] [H|[]]. discriminate.
+  - intros H. discriminate.
+  - intros i [].
+  - intros _. vm_compute. constructor.
+Qed.
 
 (* Several operations in one batch (flags coalesced per item and path): the replay law is false of the
    emitter - F12 (proposed known finding).  mv a b; mv b c arrives as a, b, c all flagged renamed with
